@@ -430,6 +430,8 @@ def r9(ctx):
                     ctx.violate(b.key, p, 'drain_into fails after appending to the vector')
                 continue
             for e in evs:
+                if e.name == 'WL.drain_senders' and e.data['vec'] != ('param', vi):
+                    ctx.violate(b.key, p, 'the blocked senders are drained into something other than the caller\'s vector', at=e.at)
                 if e.name == 'Q.drain_all' and e.data['vec'] != ('param', vi):
                     ctx.violate(b.key, p, 'the buffer is drained into something other than the caller\'s vector', at=e.at)
             # (b) queue loop
